@@ -35,7 +35,17 @@ package rules
 //
 // Fields of wire types do not propagate further (whatever reaches them is
 // judged there), which also keeps the taker's CoopCloseMessage.Privkey from
-// being confused with the copy the maker received.
+// being confused with the copy the maker received. Instead, in a second pass the
+// bytes returned by MarshalPeerswapMessage become an origin of their own
+// ("encoded[labels]") when a field of the encoded message type carries a
+// secret on a feasible flow (coop_close: the key). Their only legitimate
+// destination is the payload of a SendMessage call; what the transport does
+// with the payload is not followed.
+//
+// Feasibility is three-valued: a guarded flow is a VIOLATION only with a
+// concrete counterexample in-edge, undecided if a shape is not understood.
+// Rendering statements (`%v` of a struct) that cannot execute are cut out of
+// every flow, not only when they are the origin.
 
 import (
 	"fmt"
@@ -54,7 +64,7 @@ import (
 func init() {
 	Register(&Prop{
 		ID:   "C23",
-		Expl: "Decides, by a forward taint analysis over the SSA form of every production function of the module (package swap, the chain/lightning adapters and everything they call), that (R1) no value derived from SwapData.PrivkeyBytes, SwapData.ClaimPreimage, SwapData.FeePreimage, ClaimParams.Signer, from a preimage returned by a payment call or by lightning.GetPreimage, or from a %v / String() / json rendering of a struct that contains one of them, reaches a field of a wire message type (every implementer of swap.PeerMessage), the value given to MarshalPeerswapMessage, a []byte argument of any SendMessage / SendCustomMessage call, or SwapData.CancelMessage (which HandleError fills from err.Error() and which the cancel and coop-close actions copy into their Message field) — except the key into CoopCloseMessage.Privkey inside a disclosing function. Interface calls are linked through the VTA call graph; calls are call-site sensitive (argument->result summaries, no descent through one call site and return through another); struct fields are merged per type; calls without a body in the module copy every operand into every non-error result. PubKey(), Preimage.Hash(), hashes/transaction ids, signing and the invoice returned by GetPayreq are the only sanitisers. A flow whose origin statement is guarded by `swap.F == nil` tests is discharged only if, by the per-state definitely-set-fields argument over the four tables and all SendEvent call sites (context type applied before the transition, field never reset to nil, persisted, SwapData never replaced), F is set in every state that runs that action; otherwise the flow is reported with the in-edge that breaks the argument. (R3) a preimage created by lightning.GetPreimage in package swap reaches, without going through struct fields, only GetPayreq and SwapData fields, and no secret reaches a field of OpeningParams (the public script parameters: the preimage leaves only as its hash). The quantifier is over every statement, call site and state of the tree, i.e. over all message sequences in all roles and failure paths.",
+		Expl: "Decides, by a forward taint analysis over the SSA form of every production function of the module (package swap, the chain/lightning adapters and everything they call), that (R1) no value derived from SwapData.PrivkeyBytes, SwapData.ClaimPreimage, SwapData.FeePreimage, ClaimParams.Signer, from a preimage returned by a payment call or by lightning.GetPreimage, or from a %v / String() / json rendering of a struct that contains one of them, reaches a field of a wire message type (every implementer of swap.PeerMessage), the value given to MarshalPeerswapMessage, a []byte argument of any SendMessage / SendCustomMessage call, or SwapData.CancelMessage (which HandleError fills from err.Error() and which the cancel and coop-close actions copy into their Message field) — except the key into CoopCloseMessage.Privkey inside a disclosing function. Interface calls are linked through the VTA call graph; calls are call-site sensitive (argument->result summaries, no descent through one call site and return through another); struct fields are merged per type; calls without a body in the module copy every operand into every non-error result. PubKey(), Preimage.Hash(), hashes/transaction ids, signing and the invoice returned by GetPayreq are the only sanitisers. The bytes returned by MarshalPeerswapMessage for a message with a secret-carrying field (coop_close) are themselves tracked (label encoded[...]): they may only reach the payload of a SendMessage call and SwapData.NextMessage, not an error text, SwapData.CancelMessage or another message. A flow whose origin or rendering statement (in an action's Execute or in a helper reached from it by enumerable static calls that pass the SwapData on) is guarded by `swap.F == nil` tests is discharged only if, by the per-state definitely-set-fields argument over the four tables and all SendEvent call sites (context type applied before the transition, field never reset to nil, persisted, SwapData never replaced), F is set in every state that runs that action; if an in-edge is found on which F is not set the flow is reported with that in-edge; if the argument cannot be completed because a shape is not understood the flow is undecided (exit 2). (R3) a preimage created by lightning.GetPreimage in package swap reaches, without going through struct fields, only GetPayreq and SwapData fields, and no secret reaches a field of OpeningParams (the public script parameters: the preimage leaves only as its hash). The quantifier is over every statement, call site and state of the tree, i.e. over all message sequences in all roles and failure paths.",
 		NotD: "Secrets in log output or in RPC answers to the local user; secrets inside on-chain transactions (the preimage spend publishes the preimage by design); wallet seeds handled by lwk; key material before it is stored in SwapData.PrivkeyBytes; error values returned by libraries and node RPC stubs are assumed not to contain their operands (only fmt, errors, strconv, net/url are modelled as quoting them); implicit flows (branching on a secret) and side channels; R2 (disclosing actions only in taker tables and never after a successful payment) is decided by C06.R1/R2 and not repeated.",
 		Run:  runC23,
 	})
@@ -166,6 +176,8 @@ type c23Edge struct {
 	pos  token.Pos
 	why  string
 	kind int
+	site ssa.CallInstruction // the call this edge models (nil for plain data dependences)
+	stmt ssa.Instruction     // the rendering statement this edge belongs to (its feasibility is decided per state)
 }
 
 // c23CallRec remembers how a call site is linked to a callee with a body.
@@ -175,6 +187,7 @@ type c23CallRec struct {
 	res   map[int]ssa.Value
 	clean func(int) bool
 	pos   token.Pos
+	site  ssa.CallInstruction
 }
 
 type c23Origin struct {
@@ -201,6 +214,17 @@ type c23Graph struct {
 	opq      map[types.Type]bool
 	recs     []*c23CallRec
 	sumSeen  map[string]bool
+	marshals []c23Marshal
+	curSite  ssa.CallInstruction // call being modelled while edges are added
+	curStmt  ssa.Instruction     // rendering statement being modelled while edges are added
+	stmtFeas func(ssa.Instruction) int
+}
+
+// c23Marshal is one call of MarshalPeerswapMessage.
+type c23Marshal struct {
+	call ssa.CallInstruction
+	arg  ssa.Value
+	res0 ssa.Value // the encoded bytes (nil if unused)
 }
 
 type c23Exposure struct {
@@ -228,7 +252,7 @@ func (g *c23Graph) edgeK(from, to interface{}, pos token.Pos, why string, kind i
 	if v, ok := from.(ssa.Value); ok && v == nil {
 		return
 	}
-	g.succ[from] = append(g.succ[from], c23Edge{to, pos, why, kind})
+	g.succ[from] = append(g.succ[from], c23Edge{to, pos, why, kind, g.curSite, g.curStmt})
 }
 
 // opaque: (pointers to / slices of) structs declared in the module are handles:
@@ -606,6 +630,8 @@ func (g *c23Graph) resultNodes(c ssa.CallInstruction) map[int]ssa.Value {
 }
 
 func (g *c23Graph) call(fn *ssa.Function, c ssa.CallInstruction) {
+	g.curSite = c
+	defer func() { g.curSite = nil }()
 	w := g.w
 	cc := c.Common()
 	ci := w.Info(c)
@@ -649,6 +675,9 @@ func (g *c23Graph) call(fn *ssa.Function, c ssa.CallInstruction) {
 		return cleanWhy != "" && (!cleanFirst || i == 0)
 	}
 
+	if name == c23MarshalName && len(cc.Args) == 1 {
+		g.marshals = append(g.marshals, c23Marshal{call: c, arg: cc.Args[0], res0: res[0]})
+	}
 	// source calls
 	if lab, ok := c23SourceCalls[name]; ok && (lab != "makerPreimage" || w.FnRel(fn) == "swap") {
 		if r := res[0]; r != nil {
@@ -671,7 +700,7 @@ func (g *c23Graph) call(fn *ssa.Function, c ssa.CallInstruction) {
 	}
 	for _, f := range bodies {
 		g.addFn(f)
-		rec := &c23CallRec{f: f, args: make([]ssa.Value, len(f.Params)), res: res, clean: clean, pos: pos}
+		rec := &c23CallRec{f: f, args: make([]ssa.Value, len(f.Params)), res: res, clean: clean, pos: pos, site: c}
 		if cc.IsInvoke() {
 			// The interface value is not copied into the receiver of every
 			// possible implementation (a value built by fmt.Errorf is not a
@@ -926,6 +955,8 @@ func (g *c23Graph) expose(t types.Type, to ssa.Value, at ssa.Instruction) {
 	}
 	mode := g.renderMode(to)
 	e := g.exposure(t, mode)
+	g.curStmt = at
+	defer func() { g.curStmt = nil }()
 	how := "rendering (" + mode + ") of " + types.TypeString(t, func(p *types.Package) string { return p.Name() })
 	how = strings.Replace(how, "(any)", "(fmt/json)", 1)
 	for _, k := range e.fields {
@@ -970,6 +1001,7 @@ func (g *c23Graph) summarize() {
 		}
 		return fns[i].Pos() < fns[j].Pos()
 	})
+	defer func() { g.curSite = nil }()
 	for changed := true; changed; {
 		changed = false
 		for _, f := range fns {
@@ -1018,6 +1050,7 @@ func (g *c23Graph) summarize() {
 					if a == nil {
 						continue
 					}
+					g.curSite = r.site
 					for j := range o.ret {
 						if res := r.res[j]; res != nil && !r.clean(j) {
 							k := fmt.Sprintf("%p>%p", a, res)
@@ -1058,6 +1091,13 @@ type c23Reach struct {
 }
 
 func (g *c23Graph) bfs(o *c23Origin, stopAtFields func(string) bool) *c23Reach {
+	return g.bfsSkip(o, stopAtFields, nil)
+}
+
+// bfsSkip is bfs that does not follow the edges that model the calls in skip
+// (used for encoded messages: what the peer transport does with the payload
+// it is handed is not followed).
+func (g *c23Graph) bfsSkip(o *c23Origin, stopAtFields func(string) bool, skip map[ssa.CallInstruction]bool) *c23Reach {
 	start := c23State{o.node, 0}
 	r := &c23Reach{parent: map[c23State]c23State{start: {}}, via: map[c23State]c23Edge{}, first: map[interface{}]c23State{o.node: start}}
 	q := []c23State{start}
@@ -1077,6 +1117,12 @@ func (g *c23Graph) bfs(o *c23Origin, stopAtFields func(string) bool) *c23Reach {
 			}
 		}
 		for _, e := range g.succ[n] {
+			if e.site != nil && skip[e.site] {
+				continue
+			}
+			if e.stmt != nil && g.stmtFeas != nil && g.stmtFeas(e.stmt) == c23Yes {
+				continue // the rendering statement cannot execute
+			}
 			ph := st.ph
 			switch e.kind {
 			case c23Up:
@@ -1134,6 +1180,23 @@ func (g *c23Graph) nodeString(n interface{}) string {
 		return fmt.Sprintf("%s%s", x.Name(), fn)
 	}
 	return fmt.Sprint(n)
+}
+
+// undecidedStmt returns a rendering statement on the witness path whose
+// feasibility could not be decided (nil if none).
+func (g *c23Graph) undecidedStmt(r *c23Reach, n interface{}) ssa.Instruction {
+	cur, ok := r.first[n]
+	for ok {
+		p, has := r.parent[cur]
+		if !has || p.n == nil {
+			break
+		}
+		if e := r.via[cur]; e.stmt != nil && g.stmtFeas != nil && g.stmtFeas(e.stmt) == c23Unk {
+			return e.stmt
+		}
+		cur = p
+	}
+	return nil
 }
 
 // path renders the witness from the origin to n.
@@ -1230,12 +1293,23 @@ func (g *c23Graph) sinks() []*c23Sink {
 }
 
 // ---- feasibility: per-state definitely-set fields (E2+E4) -------------------------------------
+//
+// Every answer is three-valued: c23Yes (established), c23No (a concrete
+// counterexample was found: an in-edge on which the field is not set), c23Unk
+// (a shape the analysis cannot interpret). Only c23No makes a guarded flow a
+// VIOLATION; c23Unk makes it undecided.
+
+const (
+	c23Yes = iota
+	c23No
+	c23Unk
+)
 
 type c23Inject struct {
-	site   ssa.CallInstruction
+	site   ssa.CallInstruction // outermost call site the event/context were resolved at
 	events []string
-	ctx    types.Type // static type of the context value, nil for a nil context
-	ctxBad bool       // context is neither nil nor a conversion of a concrete value
+	ctxs   []types.Type // alternatives for the context value; a nil entry = nil context
+	ctxUnk bool         // the context value has a shape that is not understood
 }
 
 type c23Feas struct {
@@ -1243,22 +1317,226 @@ type c23Feas struct {
 	w        *an.World
 	ts       []*TI
 	swapData *types.Named
+	prod     map[*ssa.Function]bool
 	injects  []*c23Inject
 	baseOK   bool
 	baseWhy  string
 	defset   map[string]map[*TI]map[string]bool // field -> table -> state -> set
+	defpos   map[string]map[*TI]map[string]bool // ... -> "not set" is established (not merely unknown)
 	whyNot   map[string]string
+	whyPos   map[string]bool
 	edgeWhy  map[string]string // field|table/state -> why an in-edge does not guarantee the field
+	setMemo  map[string]int
+	siteMemo map[ssa.Instruction]c23SiteVerdict
+	jumps    map[string]bool // states entered by a direct assignment outside the tables
 }
 
 func c23NewFeas(c *an.Check, ts []*TI) *c23Feas {
-	f := &c23Feas{c: c, w: c.W, ts: ts, defset: map[string]map[*TI]map[string]bool{}, whyNot: map[string]string{}, edgeWhy: map[string]string{}}
+	f := &c23Feas{c: c, w: c.W, ts: ts, defset: map[string]map[*TI]map[string]bool{}, defpos: map[string]map[*TI]map[string]bool{}, whyNot: map[string]string{}, whyPos: map[string]bool{}, edgeWhy: map[string]string{}, prod: map[*ssa.Function]bool{}, setMemo: map[string]int{}, siteMemo: map[ssa.Instruction]c23SiteVerdict{}}
 	f.swapData = c.W.Named("swap", "SwapData")
+	for _, fn := range prodFuncs(c.W) {
+		f.prod[fn] = true
+	}
 	f.baseOK, f.baseWhy = f.base()
 	return f
 }
 
-// base checks the facts about the dispatcher the argument rests on.
+// staticCallers lists the call sites of fn if every way to reach fn is a
+// static call in a production function (no function value, no interface).
+func (f *c23Feas) staticCallers(fn *ssa.Function) ([]ssa.CallInstruction, bool) {
+	n := f.w.CG().Nodes[fn]
+	if n == nil || len(n.In) == 0 {
+		return nil, false
+	}
+	var out []ssa.CallInstruction
+	seen := map[ssa.CallInstruction]bool{}
+	for _, in := range n.In {
+		if in.Site != nil && in.Caller != nil && in.Caller.Func != nil && in.Caller.Func.Synthetic != "" && in.Site.Common().StaticCallee() == fn && !strings.HasSuffix(in.Caller.Func.Name(), "$bound") {
+			// a compiler-made wrapper (promoted method, pointer receiver): its own
+			// call sites are the call sites; a wrapper nobody calls is ignored
+			wn := f.w.CG().Nodes[in.Caller.Func]
+			if wn == nil || len(wn.In) == 0 {
+				continue
+			}
+			sub, ok := f.staticCallers(in.Caller.Func)
+			if !ok {
+				return nil, false
+			}
+			for _, c := range sub {
+				if !seen[c] {
+					seen[c] = true
+					out = append(out, c)
+				}
+			}
+			continue
+		}
+		if in.Site == nil || in.Caller == nil || !f.prod[in.Caller.Func] || in.Site.Common().StaticCallee() != fn {
+			return nil, false
+		}
+		if _, isGo := in.Site.(*ssa.Go); isGo {
+			return nil, false
+		}
+		if !seen[in.Site] {
+			seen[in.Site] = true
+			out = append(out, in.Site)
+		}
+	}
+	if len(out) == 0 {
+		return nil, false
+	}
+	// a reference to fn as a value (method value, closure argument) escapes the call graph test above only if it is never called; be strict anyway
+	for g := range f.prod {
+		for _, b := range g.Blocks {
+			for _, in := range b.Instrs {
+				if mc, ok := in.(*ssa.MakeClosure); ok {
+					if cf, ok := mc.Fn.(*ssa.Function); ok && cf.Synthetic != "" && cf.Object() != nil && fn.Object() != nil && cf.Object() == fn.Object() {
+						return nil, false
+					}
+				}
+			}
+		}
+	}
+	sort.Slice(out, func(i, j int) bool { return out[i].Pos() < out[j].Pos() })
+	return out, true
+}
+
+func c23ParamIndex(fn *ssa.Function, v ssa.Value) int {
+	p, ok := v.(*ssa.Parameter)
+	if !ok || p.Parent() != fn {
+		return -1
+	}
+	for i, q := range fn.Params {
+		if q == p {
+			return i
+		}
+	}
+	return -1
+}
+
+// ctxAlts lists what the context argument may be.
+func c23CtxAlts(v ssa.Value, seen map[ssa.Value]bool) (alts []types.Type, unk bool) {
+	if seen[v] {
+		return nil, false
+	}
+	seen[v] = true
+	switch x := v.(type) {
+	case *ssa.MakeInterface:
+		return []types.Type{x.X.Type()}, false
+	case *ssa.Phi:
+		for _, e := range x.Edges {
+			a, u := c23CtxAlts(e, seen)
+			alts = append(alts, a...)
+			unk = unk || u
+		}
+		return alts, unk
+	case *ssa.ChangeType:
+		return c23CtxAlts(x.X, seen)
+	}
+	if an.IsNilConst(v) {
+		return []types.Type{nil}, false
+	}
+	return nil, true
+}
+
+// msgTypes resolves the concrete types an interface value may hold by going
+// back through phis, results of static in-module callees and parameters (to the
+// enumerable call sites). ok=false: could be anything.
+func (f *c23Feas) msgTypes(v ssa.Value, depth int, seen map[ssa.Value]bool) (out []types.Type, ok bool) {
+	if seen[v] {
+		return nil, true
+	}
+	seen[v] = true
+	if depth > 4 {
+		return nil, false
+	}
+	switch x := v.(type) {
+	case *ssa.MakeInterface:
+		return []types.Type{x.X.Type()}, true
+	case *ssa.ChangeInterface:
+		return f.msgTypes(x.X, depth, seen)
+	case *ssa.ChangeType:
+		return f.msgTypes(x.X, depth, seen)
+	case *ssa.Phi:
+		for _, e := range x.Edges {
+			if an.IsNilConst(e) {
+				continue
+			}
+			t, k := f.msgTypes(e, depth, seen)
+			if !k {
+				return nil, false
+			}
+			out = append(out, t...)
+		}
+		return out, true
+	case *ssa.Call:
+		callee := x.Common().StaticCallee()
+		if callee == nil || !f.w.InModule(callee) || callee.Blocks == nil {
+			return nil, false
+		}
+		for _, r := range an.Returns(callee) {
+			if len(r.Results) == 0 || an.IsNilConst(r.Results[0]) {
+				continue
+			}
+			t, k := f.msgTypes(r.Results[0], depth+1, seen)
+			if !k {
+				return nil, false
+			}
+			out = append(out, t...)
+		}
+		return out, true
+	case *ssa.Parameter:
+		fn := x.Parent()
+		idx := c23ParamIndex(fn, x)
+		callers, k := f.staticCallers(fn)
+		if !k || idx < 0 {
+			return nil, false
+		}
+		for _, gc := range callers {
+			args := gc.Common().Args
+			if idx >= len(args) {
+				return nil, false
+			}
+			t, k := f.msgTypes(args[idx], depth+1, seen)
+			if !k {
+				return nil, false
+			}
+			out = append(out, t...)
+		}
+		return out, true
+	}
+	return nil, false
+}
+
+// resolveInject turns one SendEvent call into injections, following event and
+// context values that are parameters of the enclosing function (a delivery
+// helper) to the helper's call sites.
+func (f *c23Feas) resolveInject(fn *ssa.Function, site ssa.CallInstruction, ev, ctx ssa.Value, depth int) {
+	evs := eventValues(f.w, ev)
+	evIdx, ctxIdx := c23ParamIndex(fn, ev), c23ParamIndex(fn, ctx)
+	evOpen := evIdx >= 0 && len(evs) == 1 && evs[0] == "?"
+	if (evOpen || ctxIdx >= 0) && depth < 3 {
+		if callers, ok := f.staticCallers(fn); ok {
+			for _, gc := range callers {
+				args := gc.Common().Args
+				ev2, ctx2 := ev, ctx
+				if evOpen && evIdx < len(args) {
+					ev2 = args[evIdx]
+				}
+				if ctxIdx >= 0 && ctxIdx < len(args) {
+					ctx2 = args[ctxIdx]
+				}
+				f.resolveInject(gc.Parent(), gc, ev2, ctx2, depth+1)
+			}
+			return
+		}
+	}
+	inj := &c23Inject{site: site, events: evs}
+	inj.ctxs, inj.ctxUnk = c23CtxAlts(ctx, map[ssa.Value]bool{})
+	f.injects = append(f.injects, inj)
+}
+
+// base checks the facts about the dispatcher the argument rests on. A failure
+// means "cannot interpret", never "the property is broken".
 func (f *c23Feas) base() (bool, string) {
 	w := f.w
 	if f.swapData == nil || len(f.ts) == 0 {
@@ -1274,7 +1552,7 @@ func (f *c23Feas) base() (bool, string) {
 	for _, fn := range prodFuncs(w) {
 		for _, call := range callsNamed(w, fn, fxActionExecute) {
 			nExec++
-			if fn != se && fn != rec && f.actionOf(fn) == nil && !c23OnlyCalledBy(w, fn, rec) {
+			if fn != se && fn != rec && f.actionOf(fn) == nil && !c23OnlyCalledBy(w, fn, rec) && !c23OnlyCalledBy(w, fn, se) {
 				return false, fmt.Sprintf("Action.Execute is also invoked by %s (%s)", w.FuncName(fn), w.Pos(call.Pos()))
 			}
 		}
@@ -1282,13 +1560,40 @@ func (f *c23Feas) base() (bool, string) {
 	if nExec < 2 {
 		return false, "dispatch sites of Action.Execute not found"
 	}
-	// (2) in SendEvent the action runs only after ApplyToSwapData, unless the context is nil
-	applies := callsNamed(w, se, c23ApplyCtx)
-	execs := callsNamed(w, se, fxActionExecute)
-	if len(applies) != 1 || len(execs) == 0 || len(se.Params) < 3 {
-		return false, "SendEvent: context application / action dispatch not of the expected shape"
+	// (2) in SendEvent the action runs only after ApplyToSwapData, unless the context is nil.
+	// The application may sit in SendEvent or in a helper it calls with the context.
+	if len(se.Params) < 3 {
+		return false, "SendEvent: unexpected signature"
 	}
 	ctxParam := se.Params[2]
+	var applies []ssa.Instruction
+	for _, call := range an.Calls(se) {
+		ci := w.Info(call)
+		if ci.Name == c23ApplyCtx {
+			applies = append(applies, call)
+			continue
+		}
+		if ci.Static != nil && w.InModule(ci.Static) && ci.Static != se {
+			for i, a := range call.Common().Args {
+				if a == ssa.Value(ctxParam) && i < len(ci.Static.Params) && f.mustApply(ci.Static, ci.Static.Params[i]) {
+					applies = append(applies, call)
+				}
+			}
+		}
+	}
+	// the dispatch may likewise sit in a helper called only by SendEvent
+	var execs []ssa.Instruction
+	for _, call := range an.Calls(se) {
+		ci := w.Info(call)
+		if ci.Name == fxActionExecute {
+			execs = append(execs, call)
+		} else if ci.Static != nil && w.InModule(ci.Static) && ci.Static != se && len(callsNamed(w, ci.Static, fxActionExecute)) > 0 {
+			execs = append(execs, call)
+		}
+	}
+	if len(applies) == 0 || len(execs) == 0 {
+		return false, "SendEvent: context application / action dispatch not found"
+	}
 	cut := map[an.Edge]bool{}
 	for _, fa := range w.Facts(se) {
 		if fa.NonNum && fa.Rel == "==" && ((fa.LV == ssa.Value(ctxParam) && an.IsNilConst(fa.RV)) || (fa.RV == ssa.Value(ctxParam) && an.IsNilConst(fa.LV))) {
@@ -1298,24 +1603,42 @@ func (f *c23Feas) base() (bool, string) {
 	if len(cut) == 0 {
 		return false, "SendEvent: no test of the event context against nil"
 	}
-	reach := an.ReachBlocks([]*ssa.BasicBlock{se.Blocks[0]}, cut, map[*ssa.BasicBlock]bool{applies[0].Block(): true})
+	stop := map[*ssa.BasicBlock]bool{}
+	for _, a := range applies {
+		stop[a.Block()] = true
+	}
+	reach := an.ReachBlocks([]*ssa.BasicBlock{se.Blocks[0]}, cut, stop)
 	for _, e := range execs {
-		if e.Block() != applies[0].Block() && reach[e.Block()] {
+		if stop[e.Block()] {
+			// same block: the application must come first
+			first := -1
+			for _, a := range applies {
+				if a.Block() == e.Block() && (first < 0 || an.InstrIndex(a) < first) {
+					first = an.InstrIndex(a)
+				}
+			}
+			if first >= 0 && first < an.InstrIndex(e) {
+				continue
+			}
+			return false, "SendEvent: the action is dispatched before the context is applied"
+		}
+		if reach[e.Block()] {
 			return false, "SendEvent: the action can run with a non-nil context that was not applied"
 		}
 	}
-	// (3) the SwapData object of a machine is only installed by the table constructors
-	cons := map[string]bool{}
-	for _, t := range f.ts {
-		cons[t.T.Constructor] = true
-	}
+	// (3) the SwapData object of a machine is only installed while the machine is
+	// constructed (store into a freshly allocated SwapStateMachine)
 	for _, st := range w.FieldWriters("SwapStateMachine.Data") {
 		fn := st.Parent()
 		if an.IsTestSupport(w.FnRel(fn)) {
 			continue
 		}
-		if !cons[fn.Name()] {
-			return false, fmt.Sprintf("SwapStateMachine.Data is replaced in %s", w.FuncName(fn))
+		fa, _ := st.Addr.(*ssa.FieldAddr)
+		if fa == nil {
+			return false, fmt.Sprintf("SwapStateMachine.Data is written in %s in a way that is not understood", w.FuncName(fn))
+		}
+		if _, fresh := fa.X.(*ssa.Alloc); !fresh {
+			return false, fmt.Sprintf("SwapStateMachine.Data of an existing machine is replaced in %s", w.FuncName(fn))
 		}
 	}
 	// (4) no whole-struct overwrite of a SwapData
@@ -1335,29 +1658,97 @@ func (f *c23Feas) base() (bool, string) {
 			}
 		}
 	}
-	// (5) event injection sites
+	// (4b) the current state changes only by the table transition in SendEvent;
+	// any other assignment must name a constant state, which is then treated
+	// like the default state (nothing known about the fields on entry)
+	f.jumps = map[string]bool{}
+	var resolveState func(fn *ssa.Function, v ssa.Value, depth int) bool
+	resolveState = func(fn *ssa.Function, v ssa.Value, depth int) bool {
+		if fn == se {
+			return true // the transition proper
+		}
+		if st, ok := an.ConstString(v); ok {
+			f.jumps[st] = true
+			return true
+		}
+		idx := c23ParamIndex(fn, v)
+		if idx < 0 || depth > 2 {
+			return false
+		}
+		callers, ok := f.staticCallers(fn)
+		if !ok {
+			return false
+		}
+		for _, gc := range callers {
+			args := gc.Common().Args
+			if idx >= len(args) || !resolveState(gc.Parent(), args[idx], depth+1) {
+				return false
+			}
+		}
+		return true
+	}
+	for _, st := range w.FieldWriters("SwapStateMachine.Current") {
+		fn := st.Parent()
+		if an.IsTestSupport(w.FnRel(fn)) {
+			continue
+		}
+		if _, fresh := st.Addr.(*ssa.FieldAddr).X.(*ssa.Alloc); fresh {
+			continue // construction
+		}
+		if !resolveState(fn, st.Val, 0) {
+			return false, fmt.Sprintf("the current state is assigned in %s from a value that is neither the table transition nor a constant", w.FuncName(fn))
+		}
+	}
+	// (5) event injection sites (resolved through delivery helpers)
+	nSites := 0
 	for _, fn := range prodFuncs(w) {
 		for _, call := range callsNamed(w, fn, c23SendEvent) {
 			args := call.Common().Args
 			if len(args) != 3 {
 				return false, "SendEvent call with unexpected arity"
 			}
-			inj := &c23Inject{site: call, events: eventValues(w, args[1])}
-			switch x := args[2].(type) {
-			case *ssa.MakeInterface:
-				inj.ctx = x.X.Type()
-			default:
-				if !an.IsNilConst(args[2]) {
-					inj.ctxBad = true
-				}
-			}
-			f.injects = append(f.injects, inj)
+			nSites++
+			f.resolveInject(fn, call, args[1], args[2], 0)
 		}
 	}
-	if len(f.injects) < 10 {
-		return false, "fewer SendEvent call sites than confirmed"
+	if nSites < 3 || len(f.injects) < 10 {
+		return false, "fewer event injections than confirmed"
 	}
 	return true, ""
+}
+
+// mustApply: helper fn applies the context parameter (EventContext.ApplyToSwapData
+// on it) on every path to a return, unless the context is nil.
+func (f *c23Feas) mustApply(fn *ssa.Function, ctx *ssa.Parameter) bool {
+	if fn.Blocks == nil {
+		return false
+	}
+	var applies []ssa.Instruction
+	for _, call := range callsNamed(f.w, fn, c23ApplyCtx) {
+		if call.Common().Value == ssa.Value(ctx) {
+			applies = append(applies, call)
+		}
+	}
+	if len(applies) == 0 {
+		return false
+	}
+	cut := map[an.Edge]bool{}
+	for _, fa := range f.w.Facts(fn) {
+		if fa.NonNum && fa.Rel == "==" && ((fa.LV == ssa.Value(ctx) && an.IsNilConst(fa.RV)) || (fa.RV == ssa.Value(ctx) && an.IsNilConst(fa.LV))) {
+			cut[fa.Edge] = true
+		}
+	}
+	stop := map[*ssa.BasicBlock]bool{}
+	for _, a := range applies {
+		stop[a.Block()] = true
+	}
+	reach := an.ReachBlocks([]*ssa.BasicBlock{fn.Blocks[0]}, cut, stop)
+	for _, r := range an.Returns(fn) {
+		if reach[r.Block()] && !stop[r.Block()] {
+			return false
+		}
+	}
+	return true
 }
 
 // actionOf returns the action type whose Execute method fn is (nil otherwise).
@@ -1375,45 +1766,92 @@ func (f *c23Feas) actionOf(fn *ssa.Function) *types.Named {
 	return nil
 }
 
-// ctxSets: ApplyToSwapData of the context type leaves SwapData.<field> non-nil on every return.
-func (f *c23Feas) ctxSets(t types.Type, field string) bool {
-	n := an.NamedOf(t)
-	if n == nil {
-		return false
-	}
-	fn := c23DeclaredMethod(f.w, n, "ApplyToSwapData")
+// mustSet: fn leaves SwapData.<field> of `data` non-nil on every return
+// (stores in fn or in static in-module callees that receive `data`).
+func (f *c23Feas) mustSet(fn *ssa.Function, data ssa.Value, field string, depth int) int {
 	if fn == nil || fn.Blocks == nil {
-		return false
+		return c23Unk
 	}
-	if len(fn.Params) != 2 {
-		return false
+	key := fmt.Sprintf("%p|%p|%s", fn, data, field)
+	if v, ok := f.setMemo[key]; ok {
+		return v
 	}
-	data := fn.Params[1]
-	var stores []ssa.Instruction
+	f.setMemo[key] = c23Unk // recursion guard
+	var sure, maybe []ssa.Instruction
 	for _, b := range fn.Blocks {
 		for _, in := range b.Instrs {
-			if st, ok := in.(*ssa.Store); ok {
-				if fa, ok := st.Addr.(*ssa.FieldAddr); ok && fa.X == ssa.Value(data) && an.FieldName(fa.X.Type(), fa.Field) == "SwapData."+field && c23NonNil(st.Val) {
-					stores = append(stores, st)
+			switch x := in.(type) {
+			case *ssa.Store:
+				if fa, ok := x.Addr.(*ssa.FieldAddr); ok && fa.X == data && an.FieldName(fa.X.Type(), fa.Field) == "SwapData."+field {
+					if c23NonNil(x.Val) || f.paramAlwaysNonNil(fn, x.Val, 0) {
+						sure = append(sure, x)
+					} else if !an.IsNilConst(x.Val) {
+						maybe = append(maybe, x)
+					}
+				}
+			case ssa.CallInstruction:
+				cc := x.Common()
+				passes := false
+				idx := -1
+				for i, a := range cc.Args {
+					if a == data {
+						passes, idx = true, i
+					}
+				}
+				if !passes {
+					continue
+				}
+				callee := cc.StaticCallee()
+				if callee == nil || !f.w.InModule(callee) || depth >= 2 || idx >= len(callee.Params) {
+					maybe = append(maybe, x)
+					continue
+				}
+				switch f.mustSet(callee, callee.Params[idx], field, depth+1) {
+				case c23Yes:
+					sure = append(sure, x)
+				case c23Unk:
+					maybe = append(maybe, x)
 				}
 			}
 		}
 	}
+	res := c23Yes
 	for _, r := range an.Returns(fn) {
-		if len(stores) > 0 && an.MustPassInstr(r, stores) {
+		if len(sure) > 0 && an.MustPassInstr(r, sure) {
 			continue
 		}
-		ok := false
+		guarded := false
 		for _, fa := range f.w.FactsDominatingBlock(r.Block()) {
-			if fa.NonNum && fa.Rel == "!=" && c23NilTestOf(fa, data, field) {
-				ok = true
+			if fa.NonNum && fa.Rel == "!=" && c23NilTestOf(fa, map[ssa.Value]bool{data: true}, field) {
+				guarded = true
 			}
 		}
-		if !ok {
-			return false
+		if guarded {
+			continue
 		}
+		if len(maybe) > 0 && an.MustPassInstr(r, append(append([]ssa.Instruction{}, sure...), maybe...)) {
+			if res == c23Yes {
+				res = c23Unk
+			}
+			continue
+		}
+		res = c23No
 	}
-	return true
+	f.setMemo[key] = res
+	return res
+}
+
+// ctxSets: ApplyToSwapData of the context type leaves SwapData.<field> non-nil on every return.
+func (f *c23Feas) ctxSets(t types.Type, field string) int {
+	n := an.NamedOf(t)
+	if n == nil {
+		return c23Unk
+	}
+	fn := c23DeclaredMethod(f.w, n, "ApplyToSwapData")
+	if fn == nil || fn.Blocks == nil || len(fn.Params) != 2 {
+		return c23Unk
+	}
+	return f.mustSet(fn, fn.Params[1], field, 0)
 }
 
 // c23DeclaredMethod returns the source-level method (not a pointer wrapper).
@@ -1443,22 +1881,22 @@ func c23NonNil(v ssa.Value) bool {
 	return false
 }
 
-// c23NilTestOf: the fact compares SwapData.<field> of `data` with nil.
-func c23NilTestOf(fa an.Fact, data ssa.Value, field string) bool {
+// c23NilTestOf: the fact compares SwapData.<field> of one of the `data` values with nil.
+func c23NilTestOf(fa an.Fact, data map[ssa.Value]bool, field string) bool {
 	isLoad := func(v ssa.Value) bool {
 		u, ok := v.(*ssa.UnOp)
 		if !ok || u.Op != token.MUL {
 			return false
 		}
 		a, ok := u.X.(*ssa.FieldAddr)
-		return ok && a.X == data && an.FieldName(a.X.Type(), a.Field) == "SwapData."+field
+		return ok && data[a.X] && an.FieldName(a.X.Type(), a.Field) == "SwapData."+field
 	}
 	return (isLoad(fa.LV) && an.IsNilConst(fa.RV)) || (isLoad(fa.RV) && an.IsNilConst(fa.LV))
 }
 
 // fieldOK: global conditions on a SwapData field (only non-nil values are ever
 // stored; the field survives the store round trip).
-func (f *c23Feas) fieldOK(field string) (bool, string) {
+func (f *c23Feas) fieldOK(field string) (int, string) {
 	st, _ := f.swapData.Underlying().(*types.Struct)
 	persisted := false
 	for i := 0; st != nil && i < st.NumFields(); i++ {
@@ -1468,7 +1906,7 @@ func (f *c23Feas) fieldOK(field string) (bool, string) {
 		}
 	}
 	if !persisted {
-		return false, "SwapData." + field + " is not persisted (recovery would run the action without it)"
+		return c23No, "SwapData." + field + " is not persisted (recovery would run the action without it)"
 	}
 	n := 0
 	for _, s := range f.w.FieldWriters("SwapData." + field) {
@@ -1476,68 +1914,124 @@ func (f *c23Feas) fieldOK(field string) (bool, string) {
 			continue
 		}
 		n++
+		if an.IsNilConst(s.Val) {
+			return c23No, fmt.Sprintf("SwapData.%s is reset to nil in %s", field, f.w.FuncName(s.Parent()))
+		}
 		if !c23NonNil(s.Val) {
-			return false, fmt.Sprintf("SwapData.%s is assigned a possibly-nil value in %s", field, f.w.FuncName(s.Parent()))
+			// a pointer handed to a setter helper: non-nil if every call site passes a non-nil value
+			if f.paramAlwaysNonNil(s.Parent(), s.Val, 0) {
+				continue
+			}
+			return c23Unk, fmt.Sprintf("SwapData.%s is assigned a value in %s that is not known to be non-nil", field, f.w.FuncName(s.Parent()))
 		}
 	}
 	if n == 0 {
-		return false, "SwapData." + field + " is never assigned"
+		return c23Unk, "SwapData." + field + " is never assigned"
 	}
-	return true, ""
+	return c23Yes, ""
+}
+
+// paramAlwaysNonNil: v is a parameter of fn and every (static, enumerable) call
+// site passes a provably non-nil value.
+func (f *c23Feas) paramAlwaysNonNil(fn *ssa.Function, v ssa.Value, depth int) bool {
+	idx := c23ParamIndex(fn, v)
+	if idx < 0 || depth > 2 {
+		return false
+	}
+	callers, ok := f.staticCallers(fn)
+	if !ok {
+		return false
+	}
+	for _, gc := range callers {
+		args := gc.Common().Args
+		if idx >= len(args) {
+			return false
+		}
+		if !c23NonNil(args[idx]) && !f.paramAlwaysNonNil(gc.Parent(), args[idx], depth+1) {
+			return false
+		}
+	}
+	return true
 }
 
 // injectSets: every external injection of ev carries a context that sets the
-// field; otherwise the reason.
-func (f *c23Feas) injectSets(ev, field string) (bool, string) {
+// field; otherwise c23No (a counterexample injection) / c23Unk and the reason.
+func (f *c23Feas) injectSets(ev, field string) (int, string) {
 	n := 0
+	res, why := c23Yes, ""
+	worse := func(v int, w string) {
+		if v == c23No && res != c23No || v == c23Unk && res == c23Yes {
+			res, why = v, w
+		}
+	}
 	for _, inj := range f.injects {
-		hit := false
+		hit, open := false, false
 		for _, e := range inj.events {
 			if e == "?" {
-				return false, fmt.Sprintf("the event sent at %s is not a constant", f.w.Pos(inj.site.Pos()))
+				open = true
 			}
 			if e == ev {
 				hit = true
 			}
 		}
+		at := fmt.Sprintf("%s (%s)", f.w.Pos(inj.site.Pos()), f.w.FuncName(inj.site.Parent()))
+		if open {
+			worse(c23Unk, fmt.Sprintf("the event sent at %s is not a constant", at))
+			continue
+		}
 		if !hit {
 			continue
 		}
 		n++
-		at := fmt.Sprintf("%s (%s)", f.w.Pos(inj.site.Pos()), f.w.FuncName(inj.site.Parent()))
-		switch {
-		case inj.ctxBad:
-			return false, fmt.Sprintf("%s is sent at %s with a context that may be nil", ev, at)
-		case inj.ctx == nil:
-			return false, fmt.Sprintf("%s is sent at %s without a context", ev, at)
-		case !f.ctxSets(inj.ctx, field):
-			return false, fmt.Sprintf("%s is sent at %s with a %s, whose ApplyToSwapData does not leave SwapData.%s set on every return", ev, at, types.TypeString(inj.ctx, func(p *types.Package) string { return p.Name() }), field)
+		if inj.ctxUnk {
+			worse(c23Unk, fmt.Sprintf("%s is sent at %s with a context value of a shape that is not understood", ev, at))
+		}
+		for _, ct := range inj.ctxs {
+			if ct == nil {
+				worse(c23No, fmt.Sprintf("%s is sent at %s without a context (or with a context that may be nil)", ev, at))
+				continue
+			}
+			tn := types.TypeString(ct, func(p *types.Package) string { return p.Name() })
+			switch f.ctxSets(ct, field) {
+			case c23No:
+				worse(c23No, fmt.Sprintf("%s is sent at %s with a %s, whose ApplyToSwapData has a path to a return that does not set SwapData.%s", ev, at, tn, field))
+			case c23Unk:
+				worse(c23Unk, fmt.Sprintf("%s is sent at %s with a %s; whether its ApplyToSwapData always sets SwapData.%s could not be decided", ev, at, tn, field))
+			}
 		}
 	}
-	if n == 0 {
-		return false, ev + " is sent by no SendEvent call with a constant event"
+	if n == 0 && res == c23Yes {
+		return c23Unk, ev + " is sent by no SendEvent call with a constant event"
 	}
-	return true, ""
+	return res, why
 }
 
 // defSet computes, per table and state, whether SwapData.<field> is non-nil
-// whenever the action of the state runs (greatest fixpoint).
+// whenever the action of the state runs (greatest fixpoint). defpos tells for
+// the states where it is not whether that is established by a counterexample.
 func (f *c23Feas) defSet(field string) map[*TI]map[string]bool {
 	if r, ok := f.defset[field]; ok {
 		return r
 	}
 	res := map[*TI]map[string]bool{}
+	pos := map[*TI]map[string]bool{}
 	f.defset[field] = res
-	ok, why := f.fieldOK(field)
+	f.defpos[field] = pos
+	okv, why := f.fieldOK(field)
 	if !f.baseOK {
-		ok, why = false, f.baseWhy
+		okv, why = c23Unk, f.baseWhy
 	}
+	ok := okv == c23Yes
 	f.whyNot[field] = why
+	f.whyPos[field] = okv == c23No
 	for _, t := range f.ts {
 		m := map[string]bool{}
+		pm := map[string]bool{}
 		res[t] = m
+		pos[t] = pm
 		for _, s := range t.T.Order {
-			m[s] = ok && s != ""
+			m[s] = ok && s != "" && !f.jumps[s]
+			pm[s] = s == "" || f.jumps[s] || okv == c23No
 		}
 		if !ok {
 			continue
@@ -1553,16 +2047,20 @@ func (f *c23Feas) defSet(field string) map[*TI]map[string]bool {
 					if m[p] {
 						continue
 					}
-					reason := ""
-					if t.Sum[p].Events[ev] || t.Sum[p].Unknown {
-						reason = fmt.Sprintf("%s is (or may be) returned by the action of %s, where the field need not be set", ev, nonEmpty(p))
-					} else if okInj, why := f.injectSets(ev, field); !okInj {
-						reason = why
+					reason, positive := "", false
+					if t.Sum[p].Events[ev] {
+						reason = fmt.Sprintf("%s is returned by the action of %s, where the field need not be set", ev, nonEmpty(p))
+						positive = pm[p]
+					} else if t.Sum[p].Unknown {
+						reason = fmt.Sprintf("the events returned by the action of %s could not be resolved", nonEmpty(p))
+					} else if v, why := f.injectSets(ev, field); v != c23Yes {
+						reason, positive = why, v == c23No && pm[p]
 					}
 					if reason == "" {
 						continue
 					}
 					m[s] = false
+					pm[s] = positive
 					f.edgeWhy[field+"|"+t.key(s)] = fmt.Sprintf("%s --%s-->: %s", nonEmpty(p), ev, reason)
 					changed = true
 					break
@@ -1573,35 +2071,152 @@ func (f *c23Feas) defSet(field string) map[*TI]map[string]bool {
 	return res
 }
 
-// infeasible decides whether the origin statement can execute at all: it sits
-// in the Execute of an action and is guarded by `swap.F == nil` tests; it is
-// unreachable if in every state that runs this action some such F is set.
-func (f *c23Feas) infeasible(o *c23Origin) (bool, string) {
-	if o.site == nil {
-		return false, ""
+// c23Level is one frame of a call chain from an action's Execute down to the
+// function that contains the origin statement.
+type c23Level struct {
+	fn    *ssa.Function
+	block *ssa.BasicBlock     // block of the origin statement / of the call to the next lower frame
+	call  ssa.CallInstruction // call to the next lower frame (nil in the lowest frame)
+}
+
+// chains enumerates the call chains (lowest frame first) that lead from an
+// action's Execute (or, failing that, from a function whose callers cannot be
+// enumerated) to the origin statement.
+func (f *c23Feas) chains(fn *ssa.Function, block *ssa.BasicBlock, call ssa.CallInstruction, depth int, cur []c23Level, out *[][]c23Level) {
+	cur = append(append([]c23Level{}, cur...), c23Level{fn, block, call})
+	if f.actionOf(fn) != nil || depth >= 3 {
+		*out = append(*out, cur)
+		return
 	}
-	fn := o.site.Parent()
-	act := f.actionOf(fn)
-	if act == nil || fn.Synthetic != "" || len(fn.Params) != 3 {
-		return false, ""
+	callers, ok := f.staticCallers(fn)
+	if !ok || len(callers) > 6 {
+		*out = append(*out, cur)
+		return
 	}
-	data := fn.Params[2]
-	var fields []string
-	st, _ := f.swapData.Underlying().(*types.Struct)
-	for _, fa := range f.w.FactsDominatingBlock(o.site.Block()) {
-		if !fa.NonNum || fa.Rel != "==" {
-			continue
+	for _, gc := range callers {
+		f.chains(gc.Parent(), gc.Block(), gc, depth+1, cur, out)
+	}
+}
+
+// infeasible decides whether the origin statement can execute at all. The
+// statement sits in the Execute of an action, or in a helper reached from one by
+// static calls that hand the SwapData on, behind `swap.F == nil` tests; it is
+// unreachable if in every state that runs the action some such F is set.
+// Result: c23Yes = unreachable, c23No = reachable (or not guarded at all),
+// c23Unk = guarded, but the argument could not be completed.
+func (f *c23Feas) infeasible(site ssa.Instruction) (int, string) {
+	if site == nil {
+		return c23No, ""
+	}
+	if m, ok := f.siteMemo[site]; ok {
+		return m.v, m.why
+	}
+	v, why := f.infeasible0(site)
+	f.siteMemo[site] = c23SiteVerdict{v, why}
+	return v, why
+}
+
+type c23SiteVerdict struct {
+	v   int
+	why string
+}
+
+func (f *c23Feas) infeasible0(site ssa.Instruction) (int, string) {
+	var chains [][]c23Level
+	f.chains(site.Parent(), site.Block(), nil, 0, nil, &chains)
+	res, why := c23Yes, ""
+	var okWhy []string
+	for _, ch := range chains {
+		v, w := f.chainInfeasible(ch)
+		switch v {
+		case c23No:
+			return c23No, w
+		case c23Unk:
+			if res == c23Yes {
+				res, why = c23Unk, w
+			}
+		default:
+			okWhy = append(okWhy, w)
 		}
-		for i := 0; st != nil && i < st.NumFields(); i++ {
-			if c23NilTestOf(fa, data, st.Field(i).Name()) {
-				fields = append(fields, st.Field(i).Name())
+	}
+	if res == c23Yes {
+		why = strings.Join(okWhy, "; ")
+	}
+	return res, why
+}
+
+func (f *c23Feas) chainInfeasible(ch []c23Level) (int, string) {
+	top := ch[len(ch)-1]
+	act := f.actionOf(top.fn)
+	st, _ := f.swapData.Underlying().(*types.Struct)
+	// walk down from the top frame, tracking which values are the action's SwapData
+	data := map[ssa.Value]bool{}
+	if act != nil && top.fn.Synthetic == "" && len(top.fn.Params) == 3 {
+		data[top.fn.Params[2]] = true
+	}
+	fieldSet := map[string]bool{}
+	anyGuard := false
+	opaqueGuard := ""
+	for i := len(ch) - 1; i >= 0; i-- {
+		lv := ch[i]
+		for _, fa := range f.w.FactsDominatingBlock(lv.block) {
+			// a predicate over the swap data that is not looked into
+			if call, isCall := fa.Cond.(*ssa.Call); isCall && (fa.Rel == "true" || fa.Rel == "false") {
+				ops := append([]ssa.Value{}, call.Common().Args...)
+				if call.Common().IsInvoke() {
+					ops = append(ops, call.Common().Value)
+				}
+				for _, a := range ops {
+					if data[a] {
+						opaqueGuard = fmt.Sprintf("%s (%s)", f.w.Info(call).Name, f.w.Pos(call.Pos()))
+					}
+				}
+			}
+			if !fa.NonNum || fa.Rel != "==" {
+				continue
+			}
+			for k := 0; st != nil && k < st.NumFields(); k++ {
+				if c23NilTestOf(fa, data, st.Field(k).Name()) {
+					fieldSet[st.Field(k).Name()] = true
+				}
+				// a nil test on a SwapData field of a value we cannot tie to the action
+				if act == nil && c23NilTestOfAny(fa, st.Field(k).Name()) {
+					anyGuard = true
+				}
 			}
 		}
+		if i == 0 {
+			break
+		}
+		next := ch[i-1]
+		nd := map[ssa.Value]bool{}
+		args := lv.call.Common().Args
+		for k, a := range args {
+			if data[a] && k < len(next.fn.Params) {
+				nd[next.fn.Params[k]] = true
+			}
+		}
+		data = nd
+	}
+	if act == nil {
+		if anyGuard {
+			return c23Unk, fmt.Sprintf("the statement is behind nil tests of SwapData fields, but %s is not reached from an action's Execute by enumerable static calls", f.w.FuncName(top.fn))
+		}
+		return c23No, ""
+	}
+	var fields []string
+	for k := range fieldSet {
+		fields = append(fields, k)
 	}
 	if len(fields) == 0 {
-		return false, ""
+		if opaqueGuard != "" {
+			return c23Unk, "the statement is behind the predicate " + opaqueGuard + " over the swap data, which is not interpreted"
+		}
+		return c23No, ""
 	}
 	sort.Strings(fields)
+	guard := "swap." + strings.Join(fields, " == nil && swap.") + " == nil"
+	fn := top.fn
 	// the action is entered only through the dispatcher
 	if n := f.w.CG().Nodes[fn]; n != nil {
 		for _, in := range n.In {
@@ -1612,12 +2227,13 @@ func (f *c23Feas) infeasible(o *c23Origin) (bool, string) {
 				continue // pointer-receiver wrapper of the same method
 			}
 			if f.w.Info(in.Site).Name != fxActionExecute {
-				return false, fmt.Sprintf("the guard `swap.%s == nil` cannot be resolved: %s is also called directly from %s", strings.Join(fields, "/"), f.w.FuncName(fn), f.w.FuncName(in.Caller.Func))
+				return c23Unk, fmt.Sprintf("the guard `%s` cannot be resolved: %s is also called directly from %s", guard, f.w.FuncName(fn), f.w.FuncName(in.Caller.Func))
 			}
 		}
 	}
 	users := 0
 	var open []string
+	positive := false
 	for _, t := range f.ts {
 		for _, s := range t.T.Order {
 			uses := false
@@ -1636,26 +2252,56 @@ func (f *c23Feas) infeasible(o *c23Origin) (bool, string) {
 					set = true
 				}
 			}
-			if !set {
-				var whys []string
-				for _, fld := range fields {
-					if w := f.whyNot[fld]; w != "" {
-						whys = append(whys, w)
-					} else if w := f.edgeWhy[fld+"|"+t.key(s)]; w != "" {
+			if set {
+				continue
+			}
+			// reachable with all guard fields unset only if that is established for every field
+			allPos := true
+			var whys []string
+			for _, fld := range fields {
+				if w := f.whyNot[fld]; w != "" {
+					whys = append(whys, w)
+					allPos = allPos && f.whyPos[fld]
+				} else {
+					if w := f.edgeWhy[fld+"|"+t.key(s)]; w != "" {
 						whys = append(whys, "SwapData."+fld+": "+w)
 					}
+					allPos = allPos && f.defpos[fld][t][s]
 				}
-				open = append(open, fmt.Sprintf("in %s [%s]", t.key(s), strings.Join(whys, "; ")))
 			}
+			if allPos {
+				positive = true
+			}
+			open = append(open, fmt.Sprintf("in %s [%s]", t.key(s), strings.Join(whys, "; ")))
 		}
 	}
 	if users == 0 {
-		return false, "the action is in no table"
+		return c23Unk, "the action is in no table"
 	}
 	if len(open) > 0 {
-		return false, "the statement is guarded by `swap." + strings.Join(fields, " == nil && swap.") + " == nil`, which is satisfiable: " + strings.Join(open, " | ")
+		if positive {
+			return c23No, "the statement is guarded by `" + guard + "`, which is satisfiable: " + strings.Join(open, " | ")
+		}
+		return c23Unk, "the statement is guarded by `" + guard + "`; that this is unsatisfiable could not be established: " + strings.Join(open, " | ")
 	}
-	return true, fmt.Sprintf("guarded by `swap.%s == nil`; in each of the %d states that run %s one of these fields is set on every in-edge (context applied by SendEvent before the transition, never reset to nil, persisted)", strings.Join(fields, " == nil && swap."), users, f.w.FuncName(fn))
+	via := ""
+	if len(ch) > 1 {
+		via = fmt.Sprintf(" (statement in %s, reached from there by static calls)", f.w.FuncName(ch[0].fn))
+	}
+	return c23Yes, fmt.Sprintf("guarded by `%s`; in each of the %d states that run %s%s one of these fields is set on every in-edge (context applied by SendEvent before the transition, never reset to nil, persisted)", guard, users, f.w.FuncName(fn), via)
+}
+
+// c23NilTestOfAny: the fact compares the SwapData.<field> of any value with nil.
+func c23NilTestOfAny(fa an.Fact, field string) bool {
+	isLoad := func(v ssa.Value) bool {
+		u, ok := v.(*ssa.UnOp)
+		if !ok || u.Op != token.MUL {
+			return false
+		}
+		a, ok := u.X.(*ssa.FieldAddr)
+		return ok && an.FieldName(a.X.Type(), a.Field) == "SwapData."+field
+	}
+	return (isLoad(fa.LV) && an.IsNilConst(fa.RV)) || (isLoad(fa.RV) && an.IsNilConst(fa.LV))
 }
 
 // ---- the rules --------------------------------------------------------------------------------
@@ -1743,26 +2389,39 @@ func runC23(c *an.Check) {
 		}
 		fmt.Fprintf(os.Stderr, "origins %v\n", no)
 	}
-	c.AtLeast("C23.R1", "stores into wire message fields", nk["wire"], 14)
-	c.AtLeast("C23.R1", "MarshalPeerswapMessage call sites", nk["marshal"], 6)
-	c.AtLeast("C23.R1", "SendMessage payload arguments", nk["send"], 3)
-	c.AtLeast("C23.R1", "stores into SwapData.CancelMessage", nk["cancel"], 3)
-	c.AtLeast("C23.R3", "stores into OpeningParams fields", nk["params"], 6)
+	// vacuity floors count semantic instances (message kinds, functions, fields,
+	// labels), not call sites, so that de-duplicating refactors stay above them
+	wireKinds, sendFns, cancelFns, paramFields := map[string]bool{}, map[*ssa.Function]bool{}, map[*ssa.Function]bool{}, map[string]bool{}
+	for _, s := range sinks {
+		switch s.kind {
+		case "wire":
+			wireKinds[s.field[:strings.LastIndex(s.field, ".")]] = true
+		case "send":
+			sendFns[s.at.Parent()] = true
+		case "cancel":
+			cancelFns[s.at.Parent()] = true
+		case "params":
+			paramFields[s.field] = true
+		}
+	}
+	c.AtLeast("C23.R1", "wire message kinds that are built by field stores", len(wireKinds), 7)
+	c.AtLeast("C23.R1", "MarshalPeerswapMessage call sites", nk["marshal"], 1)
+	c.AtLeast("C23.R1", "functions handing a payload to SendMessage/SendCustomMessage", len(sendFns), 2)
+	c.AtLeast("C23.R1", "functions storing SwapData.CancelMessage", len(cancelFns), 2)
+	c.AtLeast("C23.R3", "OpeningParams fields that are stored", len(paramFields), 5)
 	no := map[string]int{}
 	for _, o := range g.origins {
 		no[o.label]++
 	}
-	c.AtLeast("C23.R1", "origins of label key (reads/renderings of SwapData.PrivkeyBytes)", no["key"], 3)
-	c.AtLeast("C23.R1", "origins of label claimPreimage", no["claimPreimage"], 3)
-	c.AtLeast("C23.R1", "origins of label feePreimage", no["feePreimage"], 1)
-	c.AtLeast("C23.R1", "origins of label signer (reads of ClaimParams.Signer in the adapters)", no["signer"], 3)
-	c.AtLeast("C23.R1", "origins of label paidPreimage (payment calls)", no["paidPreimage"], 3)
-	c.AtLeast("C23.R1", "origins of label makerPreimage (lightning.GetPreimage in package swap)", no["makerPreimage"], 2)
+	for _, lab := range []string{"key", "claimPreimage", "feePreimage", "signer", "paidPreimage", "makerPreimage"} {
+		c.AtLeast("C23.R1", "origins of label "+lab, no[lab], 1)
+	}
 	if len(c.Anchors) > 0 {
 		return
 	}
 
 	feas := c23NewFeas(c, ts)
+	g.stmtFeas = func(in ssa.Instruction) int { v, _ := feas.infeasible(in); return v }
 	debug := os.Getenv("C23_DEBUG") != ""
 
 	// group sinks by construct
@@ -1791,8 +2450,23 @@ func runC23(c *an.Check) {
 	legit := 0
 	ctlPayreq, ctlPersist := false, false
 	infeasMemo := map[*c23Origin][2]string{}
-	for _, o := range g.origins {
-		r := g.bfs(o, nil)
+	wireTaint := map[string]map[string]bool{} // wire field -> labels that reach it on a feasible flow
+	encodedSent := 0
+	sendCalls := map[ssa.CallInstruction]bool{}
+	for _, s := range sinks {
+		if s.kind == "send" {
+			if call, ok := s.at.(ssa.CallInstruction); ok {
+				sendCalls[call] = true
+			}
+		}
+	}
+	process := func(o *c23Origin, encoded bool) {
+		var r *c23Reach
+		if encoded {
+			r = g.bfsSkip(o, nil, sendCalls)
+		} else {
+			r = g.bfs(o, nil)
+		}
 		if debug {
 			fmt.Fprintf(os.Stderr, "origin %s %s @%s in %s: reaches %d nodes\n", o.label, o.what, w.Pos(c23Pos(o.site)), w.FuncName(o.site.Parent()), len(r.first))
 		}
@@ -1813,38 +2487,114 @@ func runC23(c *an.Check) {
 			if s.kind == "wire" && s.field == c23KeyField && o.label == "key" && len(dis[s.at.Parent()]) > 0 {
 				legit++
 				aggs[k].flows++
+				if wireTaint[s.field] == nil {
+					wireTaint[s.field] = map[string]bool{}
+				}
+				wireTaint[s.field][o.label] = true
 				c.OK(rule, cons, pos, "the legitimate disclosure: the per-swap key goes into coop_close inside a disclosing function (where such functions may run is C06.R1/R2)")
+				continue
+			}
+			if encoded && s.kind == "send" {
+				// the only legitimate destination of an encoded message that carries the key
+				encodedSent++
+				aggs[k].flows++
+				c.OK(rule, cons, pos, "the encoded coop_close message is handed to the peer transport (its content was judged at the wire fields)")
 				continue
 			}
 			aggs[k].flows++
 			memo, done := infeasMemo[o]
 			if !done {
-				inf, why := feas.infeasible(o)
-				memo = [2]string{"", why}
-				if inf {
-					memo[0] = "y"
-				}
+				v, why := feas.infeasible(o.site)
+				memo = [2]string{fmt.Sprint(v), why}
 				infeasMemo[o] = memo
 			}
 			if debug {
 				fmt.Fprintf(os.Stderr, "FLOW %s\n   %s\n", cons, strings.Join(path, "\n   "))
 			}
-			if memo[0] == "y" {
+			if memo[0] == fmt.Sprint(c23Yes) {
 				c.OK(rule, cons, pos, "flow exists in the code but its origin statement is unreachable: "+memo[1])
 				continue
+			}
+			if s.kind == "wire" {
+				if wireTaint[s.field] == nil {
+					wireTaint[s.field] = map[string]bool{}
+				}
+				wireTaint[s.field][o.label] = true
 			}
 			detail := fmt.Sprintf("secret [%s] picked up at %s (%s) reaches %s", o.label, w.Pos(c23Pos(o.site)), o.what, c23SinkText(s))
 			if memo[1] != "" {
 				detail += ". Feasibility: " + memo[1]
 			}
+			if memo[0] == fmt.Sprint(c23Unk) {
+				c.Unknown(rule, cons, pos, detail+". Path: "+strings.Join(path, " => "))
+				continue
+			}
+			if st := g.undecidedStmt(r, s.node); st != nil {
+				_, why := feas.infeasible(st)
+				c.Unknown(rule, cons, pos, detail+fmt.Sprintf(". The flow passes the rendering at %s whose reachability is undecided: %s", w.Pos(c23Pos(st)), why)+". Path: "+strings.Join(path, " => "))
+				continue
+			}
 			c.Bad(rule, cons, pos, detail, path...)
 		}
 		// R3 (direct escapes of a fresh preimage)
 		if o.label == "makerPreimage" {
-			rd := g.bfs(o, func(string) bool { return true })
+			// persisted SwapData fields end the direct flow (their readers are origins
+			// or ordinary R1 propagation); scratch structures are passed through
+			rd := g.bfs(o, func(k string) bool { return strings.HasPrefix(k, "swap.SwapData.") })
 			c23Direct(c, g, o, rd, &ctlPayreq)
 		}
 	}
+	for _, o := range g.origins {
+		process(o, false)
+	}
+	// Second pass: the bytes produced by MarshalPeerswapMessage carry what the
+	// fields of the encoded message carry. For a message with a tainted field
+	// (coop_close: the key) the encoded form is itself a secret whose only
+	// legitimate destination is the payload of a SendMessage call (and the
+	// persisted SwapData.NextMessage); an error text, SwapData.CancelMessage or a
+	// field of another message are not.
+	nEnc := 0
+	for _, m := range g.marshals {
+		if m.res0 == nil {
+			continue
+		}
+		tys, known := feas.msgTypes(m.arg, 0, map[ssa.Value]bool{})
+		var kinds []*types.Named
+		if known {
+			for _, t := range tys {
+				if n := an.NamedOf(t); n != nil && g.wireT[n] {
+					kinds = append(kinds, n)
+				}
+			}
+		} else {
+			for n := range g.wireT {
+				kinds = append(kinds, n)
+			}
+		}
+		sort.Slice(kinds, func(i, j int) bool { return kinds[i].Obj().Name() < kinds[j].Obj().Name() })
+		labs := map[string]bool{}
+		var from []string
+		for _, n := range kinds {
+			st := n.Underlying().(*types.Struct)
+			for i := 0; i < st.NumFields(); i++ {
+				for l := range wireTaint[g.fkey(n, i)] {
+					if !labs[l] {
+						labs[l] = true
+					}
+					from = append(from, n.Obj().Name()+"."+st.Field(i).Name())
+				}
+			}
+		}
+		if len(labs) == 0 {
+			continue
+		}
+		nEnc++
+		sort.Strings(from)
+		o := &c23Origin{label: "encoded[" + strings.Join(sortedKeys(labs), ",") + "]", node: m.res0, site: m.call, what: "bytes of MarshalPeerswapMessage for a message whose field " + strings.Join(from, ", ") + " carries the secret"}
+		process(o, true)
+	}
+	c.AtLeast("C23.R1", "positive control: the encoded coop_close message is seen reaching a SendMessage payload", encodedSent, 1)
+	c.Extra["encoded_message_origins"] = nEnc
 	for _, k := range aggOrder {
 		a := aggs[k]
 		i := strings.Index(k, "|")
@@ -1872,39 +2622,18 @@ func runC23(c *an.Check) {
 	sort.Strings(dn)
 	c.Note("C23.R2", "disclosing functions", "-", strings.Join(dn, ", ")+" — that they are used only by taker tables and are unreachable after a successful claim payment is C06.R2 / C06.R1")
 	if feas.baseOK {
-		c.Note("C23.R1", "feasibility base", "-", fmt.Sprintf("dispatcher facts hold (Execute only via SendEvent/Recover/wrappers; context applied before the action; SwapData never replaced); %d SendEvent call sites", len(feas.injects)))
+		c.Note("C23.R1", "feasibility base", "-", fmt.Sprintf("dispatcher facts hold (Execute only via SendEvent/Recover/wrappers; context applied before the action; SwapData never replaced); %d event injections resolved", len(feas.injects)))
 	} else {
-		c.Note("C23.R1", "feasibility base", "-", "NOT established: "+feas.baseWhy+" — guarded flows are reported")
+		c.Note("C23.R1", "feasibility base", "-", "NOT established: "+feas.baseWhy+" — guarded flows are undecided")
 	}
 }
 
-// c23Direct: R3 for one fresh preimage: where does it go without passing
-// through a struct field?
+// c23Direct: R3 for one fresh preimage: which services does it reach without
+// passing through a persisted SwapData field?
 func c23Direct(c *an.Check, g *c23Graph, o *c23Origin, r *c23Reach, sawPayreq *bool) {
 	w := c.W
 	ofn := w.FuncName(o.site.Parent())
 	bad := 0
-	// fields reached
-	var fields []string
-	for n := range r.first {
-		if f, ok := n.(c23Field); ok {
-			fields = append(fields, string(f))
-		}
-	}
-	sort.Strings(fields)
-	for _, f := range fields {
-		if strings.HasPrefix(f, "swap.SwapData.") {
-			continue
-		}
-		if g.wire[f] || strings.HasPrefix(f, c23PublicParams+".") {
-			continue // reported by R1 / the OpeningParams sinks
-		}
-		if !c23ModuleField(w, f) {
-			continue // scratch library structures; onward flow is followed by R1
-		}
-		bad++
-		c.Bad("C23.R3", fmt.Sprintf("%s fresh preimage -> field %s", ofn, f), w.Pos(c23Pos(o.site)), "the preimage of an invoice this node issued is stored, without passing a hash, in a structure other than SwapData", g.path(o, r, c23Field(f))...)
-	}
 	// service calls reached
 	for _, fn := range prodFuncs(w) {
 		if w.FnRel(fn) != "swap" || !g.fns[fn] {
@@ -1976,6 +2705,9 @@ func c23Short(what string) string {
 		what = strings.TrimPrefix(what, "rendering ("+m+") of ")
 	}
 	what = strings.ReplaceAll(what, " which contains ", " incl. ")
+	if i := strings.Index(what, " for a message whose field "); i >= 0 {
+		what = "marshalled " + strings.TrimSuffix(what[i+len(" for a message whose field "):], " carries the secret")
+	}
 	return what
 }
 
